@@ -22,6 +22,14 @@ pub struct SchedWriter {
     pub zero: bool,
     /// sprinkle `ErrorKind::Interrupted` results (which `write_all` must retry) between the real calls
     pub interrupts: bool,
+    /// `flush` fails (with one of several error kinds)
+    pub flush_fails: bool,
+}
+
+/// error kinds are opaque to postcard: every failure of the transport is a failure of the call
+pub fn some_error_kind(k: usize) -> std::io::ErrorKind {
+    use std::io::ErrorKind::*;
+    [Other, WouldBlock, TimedOut, BrokenPipe, WriteZero, UnexpectedEof, InvalidData, ConnectionReset, OutOfMemory, Unsupported][k % 10]
 }
 impl SchedWriter {
     fn accept(&mut self, buf: &[u8]) -> Result<usize, ()> {
@@ -48,10 +56,13 @@ impl std::io::Write for SchedWriter {
         match self.accept(buf) {
             Ok(n) => Ok(n),
             Err(()) if self.zero => Ok(0),
-            Err(()) => Err(std::io::Error::new(std::io::ErrorKind::Other, "injected")),
+            Err(()) => Err(std::io::Error::new(some_error_kind(self.written.len() + buf.len()), "injected")),
         }
     }
     fn flush(&mut self) -> std::io::Result<()> {
+        if self.flush_fails {
+            return Err(std::io::Error::new(some_error_kind(self.written.len()), "injected flush failure"));
+        }
         Ok(())
     }
 }
@@ -71,6 +82,9 @@ impl embedded_io::Write for EioW {
         self.0.accept(buf).map_err(|_| Injected)
     }
     fn flush(&mut self) -> Result<(), Injected> {
+        if self.0.flush_fails {
+            return Err(Injected);
+        }
         Ok(())
     }
 }
@@ -117,7 +131,8 @@ impl std::io::Read for SchedReader {
         if !self.whole && !self.one && self.rng.chance(1, 5) {
             return Err(std::io::Error::new(std::io::ErrorKind::Interrupted, "try again"));
         }
-        self.deliver(buf).map_err(|_| std::io::Error::new(std::io::ErrorKind::Other, "injected"))
+        let k = self.pos + buf.len();
+        self.deliver(buf).map_err(|_| std::io::Error::new(some_error_kind(k), "injected"))
     }
 }
 pub struct EioR(pub SchedReader);
@@ -147,7 +162,7 @@ pub fn eval(ctx: &mut Ctx, op: &str, args: &[Sexp]) -> Option<String> {
             let sched: u64 = args.get(2)?.atom()?.parse().ok()?;
             let v = DVal::from_sexp(args.get(3)?)?;
             // adapters: std | stdzero (a full sink answers Ok(0)) | stdintr (Interrupted results in between) | eio
-            let w = SchedWriter { written: Vec::new(), fail_at, rng: Rng::new(sched), whole: sched == 0, zero: adapter == "stdzero", interrupts: adapter == "stdintr" };
+            let w = SchedWriter { written: Vec::new(), fail_at, rng: Rng::new(sched), whole: sched == 0, zero: adapter == "stdzero", interrupts: adapter == "stdintr", flush_fails: adapter.ends_with("ff") };
             let plain = postcard::to_allocvec(&v).ok();
             let r: Result<(Result<(), &'static str>, Vec<u8>), ()> = guard(|| {
                 if adapter.starts_with("std") {
@@ -170,8 +185,12 @@ pub fn eval(ctx: &mut Ctx, op: &str, args: &[Sexp]) -> Option<String> {
                         if res.is_ok() && written != *p {
                             ctx.oracle_fail("writer path succeeded but did not produce exactly the plain encoding".into());
                         }
-                        if res.is_err() && fail_at.map(|k| k >= p.len()).unwrap_or(true) {
+                        let flush_fails = adapter.ends_with("ff");
+                        if res.is_err() && !flush_fails && fail_at.map(|k| k >= p.len()).unwrap_or(true) {
                             ctx.oracle_fail("writer path failed although the writer never failed".into());
+                        }
+                        if res.is_ok() && flush_fails {
+                            ctx.oracle_fail("writer path reported success although the final flush failed".into());
                         }
                     }
                     match res {
@@ -359,6 +378,8 @@ pub fn gen_c11(r: &mut Rng, thorough: bool, out: &mut Vec<String>) {
         if adapter == "std" {
             out.push(format!("wio stdintr none {} {}", 3 + i as u64, v0));
         }
+        // a sink that accepts everything and then fails the final flush (std: with varying error kinds)
+        out.push(format!("wio {}ff none {} {}", adapter, i % 3, v0));
         // reader: schedules x scratch sizes 0..need+1 x fault at every offset
         for sched in [0u64, 1, 11 + i as u64] {
             out.push(format!("rio {} none {} {} {} {} {}", adapter, total_need + 1, sched, k, t, hex(&stream)));
